@@ -322,6 +322,9 @@ func c18Concurrent(bodyIdx []int, b Bounds) *Scenario {
 				br := newBridge(&tags, true)
 				// a request served earlier on the same bridge (state left behind by it must not leak into later ones)
 				doHTTP(br, "POST", "application/json", `[{"jsonrpc":"2.0","id":77,"method":"echo","params":["warm-cW"]},{"jsonrpc":"2.0","id":78,"method":"echo","params":["warm2-cW"]}]`)
+				doHTTP(br, "POST", "application/json", `{"jsonrpc":"2.0","id":1,`) // a rejected request is part of the history too
+				doHTTP(br, "POST", "application/json", `[]`)
+				doHTTP(br, "GET", "application/json", ``)
 				vs.AwaitQuiescence()
 				var j Join
 				for c, k := range bodyIdx {
